@@ -351,7 +351,7 @@ class CollectionPipelineRule(BaseLintRule):  # thailint: ignore[srp,dry]
         if not context.file_content:
             return None
 
-        lines = context.file_content.splitlines()
+        lines = context.file_content.split("\n")
         if line_num <= 0 or line_num > len(lines):
             return None
 
